@@ -304,4 +304,49 @@ Section WithDigest.
     - split. intros o G. now apply pre_fold_gone. intros o ob I. apply pre_fold_intact. now exists ob.
     - split; auto. intros o ob I. now exists ob.
   Qed.
+  (* ---------------------------------------------------------------- hashfile.check(odb, tree) *)
+  Theorem check_seq_rejects o ob os : forall w, Tampered w o ob -> In o os -> fst (check_seq H w os) <> 0.
+  Proof.
+    assert (K : forall os w, TG w o -> In o os -> fst (check_seq H w os) <> 0).
+    { induction os0 as [|o' os0 IH]; intros w T I; simpl; [contradiction|].
+      destruct (TG_step w o o' T) as [T' X].
+      destruct (fst (check w o') =? 0) eqn:E.
+      - apply IH; auto. destruct I as [->|I]; auto.
+        destruct (X eq_refl) as [X1 _]. apply N.eqb_eq in E. contradiction.
+      - apply N.eqb_neq in E. exact E. }
+    intros w T I. apply K; auto. left. now exists ob.
+  Qed.
+
+  (* the tampered object is deleted when everything checked before it passes *)
+  Theorem check_seq_deletes o ob os1 os2 : forall w, Tampered w o ob -> ~ In o os1 ->
+    (forall o', In o' os1 -> IN w o') ->
+    fst (check_seq H w (os1 ++ o :: os2)) = 3 /\
+    lookup o (w_objs (snd (check_seq H w (os1 ++ o :: os2)))) = None.
+  Proof.
+    induction os1 as [|o' os1 IH]; intros w T NI G; simpl.
+    - destruct (reject H w o ob T) as [R D]. rewrite R. simpl. auto.
+    - assert (N : o' <> o) by (intros ->; apply NI; left; reflexivity).
+      destruct (IN_step w o' o' (G o' (or_introl eq_refl))) as [_ Z]. rewrite (Z eq_refl). simpl.
+      apply IH.
+      + apply (Tampered_ext w); auto. symmetry; apply check_cfg. symmetry; apply check_frame; auto.
+      + intros I. apply NI. right. exact I.
+      + intros o2 I2. apply IN_step. apply G. right. exact I2.
+  Qed.
+
+  Theorem check_seq_intact os : forall w, (forall o, In o os -> IN w o) ->
+    fst (check_seq H w os) = 0 /\ forall o, In o os -> IN (snd (check_seq H w os)) o.
+  Proof.
+    induction os as [|o' os IH]; intros w G; simpl.
+    - split; auto; intros o [].
+    - destruct (IN_step w o' o' (G o' (or_introl eq_refl))) as [I' Z]. rewrite (Z eq_refl). simpl.
+      assert (G' : forall o, In o (o' :: os) -> IN (snd (check w o')) o).
+      { intros o I. apply IN_step. now apply G. }
+      destruct (IH (snd (check w o')) (fun o I => G' o (or_intror I))) as [R1 R2]. split; auto.
+      intros o [<-|I]; [|now apply R2].
+      clear - G' R2 IH. 
+      assert (K : forall os w o, IN w o -> IN (snd (check_seq H w os)) o).
+      { clear. induction os as [|o2 os IH]; intros w o I; simpl; auto.
+        destruct (fst (check w o2) =? 0); [apply IH|]; now apply IN_step. }
+      apply K. apply G'. left. reflexivity.
+  Qed.
 End WithDigest.
